@@ -233,6 +233,8 @@ def lean_obligations(pid, st, log, tier):
     """build the property's proof modules, audit axioms. Returns dict."""
     cfg = props.PROPS[pid]
     mods = [m for m in cfg.get("modules", []) if os.path.exists(module_file(m))]
+    # a regenerated module that is no longer produced (the translator refuses the function now) is an obligation that no longer checks
+    missing = [m for m in cfg.get("modules", []) if m.startswith("EdVerif.Gen.") and not os.path.exists(module_file(m))]
     res = {"modules": mods, "obligations": 0, "discharged": 0, "failed": [], "axioms": {}, "forbidden": {}, "checker_cmd": "",
            "theorems": []}
     if not mods:
@@ -278,6 +280,7 @@ def lean_obligations(pid, st, log, tier):
                     failed.add(m)
                     changed = True
         res["build_log"] = out[-3000:]
+    failed.update(missing)
     res["failed"] = sorted(failed)
     res["discharged"] = sum(n for m, n in per.items() if m not in failed)
     # axiom audit of the property theorems
@@ -511,7 +514,7 @@ def main():
     broken = []
     # translator obligations ("kernel is in the translated subset")
     for sub, g in st.get("gen", {}).items():
-        if g["rc"] != 0 and sub in cfg.get("needs_gen", props.DEFAULT_NEEDS_GEN):
+        if g["rc"] != 0 and sub in cfg.get("needs_gen", props.DEFAULT_NEEDS_GEN) and not (sub == "formulas" and not lean["failed"]):
             broken.append(f"translator:{sub}: " + g["out"].strip().split("\n")[0][:300])
     if st.get("harness", {}).get("edgo", {}).get("rc") != 0:
         print("harness does not build against /repo:\n" + st["harness"]["edgo"]["out"])
@@ -544,7 +547,7 @@ def main():
 
     # hidden package-level state (the purity fact Structural.Globals no longer checks): look for a concrete failing run with
     # concurrent callers sharing nothing but the package
-    if any("Structural.Globals" in m for m in lean["failed"]) and "c18_race" not in cfg.get("parts", []) and not violations:
+    if any("Structural.Globals" in m or "Structural.Scoped" in m for m in lean["failed"]) and "c18_race" not in cfg.get("parts", []) and not violations:
         ok, info = extra.c18_race(pid, tier, seed, st, log, dict(ROOT=ROOT, LEAN=LEAN, BUILD=BUILD, RUN=RUN, REPO=REPO, GOENV=harness_env(), sh=sh))
         extra_cov["c18_race"] = info.get("coverage", {})
         if not ok:
